@@ -14,7 +14,7 @@ func init() {
 		"Decides structural necessary conditions of save/load fidelity: the snapshot written for an entry carries the node's key, value, weight and both deadlines (C19.fields); SaveCacheTo draws its entries from the eviction-order iterator, which yields only alive, unexpired entries after running maintenance under the lock (C19.source, C03.filter); LoadCacheFrom skips entries whose deadline is <= the load time - the boundary of every variant's HasExpired (C19.filter); it re-inserts with Set and then restores the remaining durations deadline - now with the same clock sample, clamped to at least 1, each guarded by its configuration flag and the 'unreachable' sentinel (C19.restore); both loops stop at the maximum and account each entry's weight (C19.bound); every record is decoded into a fresh zero Entry (C19.filter); the deadline setters the loader relies on store the requested deadline on a live entry unless a comparison with that very deadline shows it in place (C12.hook). "+
 			"NOT decided: round-trip equality of contents and deadlines on concrete runs; gob encoding.",
 		[]string{"encoding/gob round-trips exported fields", "Set / SetExpiresAfter / SetRefreshableAfter behave as C01/C12 decide"},
-		ruleC19Fields, ruleC19Load, ruleC19Save, ruleC03Filter, ruleC12Bound, ruleC05LockRead, ruleC12Hooks)
+		ruleC19Fields, ruleC19Load, ruleC19Save, ruleC03Filter, ruleC12Bound, ruleC05LockRead, ruleC12Hooks, ruleC19File)
 }
 
 func entryFieldLoad(v ssa.Value, field string) bool {
